@@ -36,7 +36,25 @@ func init() {
 // rest widen it with region sub-tags of tags already present ("en-US" must not
 // read as "en"), script sub-tags, upper case, three-letter tags – and make
 // lists of up to 14 entries without a repeated tag possible
-var tags = []ap.LangRef{ap.NilLangRef, "en", "fr", "", "de", "en-US", "EN", "zh-Hans", "ast", "es", "it", "pt-BR", "nl", "ja"}
+var baseTags = []ap.LangRef{ap.NilLangRef, "en", "fr", "", "de", "en-US", "EN", "zh-Hans", "ast", "es", "it", "pt-BR", "nl", "ja"}
+
+// tags is the alphabet of the current run: baseTags, or – 1 run in 40, a "long" run – baseTags
+// plus 114 synthetic tags, so that lists of up to 128 entries without a repeated tag exist and a
+// history can grow a list past any small threshold (8, 16, 32, 64 entries) at which an
+// implementation might switch to another representation
+var tags = baseTags
+
+var longTags = func() []ap.LangRef {
+	out := append([]ap.LangRef(nil), baseTags...)
+	for i := 0; len(out) < 128; i++ {
+		tg := fmt.Sprintf("x%02d", i)
+		if i%5 == 4 {
+			tg += "-Latn"
+		}
+		out = append(out, ap.LangRef(tg))
+	}
+	return out
+}()
 
 var texts = []string{"", "a", "b", "hello", "héllo wörld", "line\\nbreak", "{\"k\":\"v\"}", "-", "<p>x</p>", "é\U0001F600",
 	"HELLO",                        // differs from "hello" in case only
@@ -141,6 +159,12 @@ func firstWith(model []pair, tag ap.LangRef) (pair, bool) {
 }
 
 func run(c *core.Ctx) {
+	tags = baseTags
+	if c.Tape.Bool(1, 40) {
+		tags = longTags
+		c.Probe("long_run")
+		defer func() { tags = baseTags }()
+	}
 	switch c.Mode {
 	case "equals":
 		runEquals(c)
@@ -163,6 +187,9 @@ func runHistory(c *core.Ctx) {
 		c.Logf("init empty")
 	case 2: // literal contents, exact capacity
 		k := 1 + t.Draw(3)
+		if len(tags) > len(baseTags) {
+			k = 1 + t.Draw(100)
+		}
 		n = make(ap.NaturalLanguageValues, 0, k)
 		for i := 0; i < k; i++ {
 			n = append(n, ap.LangRefValue{Ref: drawTag(t, nTags), Value: drawText(t, nTexts)})
@@ -170,6 +197,9 @@ func runHistory(c *core.Ctx) {
 		c.Logf("init literal %s", renderPairs(snapshot(n)))
 	case 3: // literal contents with spare capacity holding sentinel entries
 		k := 1 + t.Draw(3)
+		if len(tags) > len(baseTags) {
+			k = 1 + t.Draw(100)
+		}
 		spare := 1 + t.Draw(3)
 		n = make(ap.NaturalLanguageValues, 0, k+spare)
 		for i := 0; i < k; i++ {
@@ -187,6 +217,9 @@ func runHistory(c *core.Ctx) {
 	maxOps := 12
 	if c.Tier == "thorough" {
 		maxOps = 40
+	}
+	if len(tags) > len(baseTags) {
+		maxOps = 150
 	}
 	nOps := 1 + t.Draw(maxOps)
 	mutating := 0
